@@ -124,6 +124,12 @@ def enumerated(tier):
                    {"op": "create_sf", "root": "", "formats": ["md5"], "flags": [], "extra": [], "sf": [child + "/c.mov"]},
                    {"op": "flatten", "root": child, "dest": "d", "extra": []}]
             yield {"root": name, "tree": tree, "steps": st_, "spell": "abs"}
+    # two entries of one folder whose names differ in Unicode normal form only (and in case only): two records
+    twins = {"caf\u00e9.txt": "composed", "cafe\u0301.txt": "decomposed", "\u212bngstrom": {"x": "1"}, "\u00c5ngstrom": {"x": "2"}, "Clip.mov": "C", "clip.mov": "c",
+             "sub": {"\u1e9b\u0323": "a", "\u1e9b\u0323".encode("utf-8").decode("utf-8") + "b": "b", "o\u0302\u0323": "c", "\u1ed9": "d"}}
+    for fm in (["xxh64"], ["md5", "c4"]):
+        yield {"root": "twins", "tree": twins, "spell": "abs", "steps": [{"op": "create", "root": "", "formats": fm, "flags": [], "extra": []},
+               {"op": "create_sf", "root": "", "formats": fm, "flags": [], "extra": [], "sf": ["caf\u00e9.txt", "cafe\u0301.txt", "sub"]}, {"op": "flatten", "root": "", "dest": "t", "extra": []}]}
     for n in ([], ["-n"]):
         yield {"root": "empty root", "tree": {}, "spell": "abs", "steps": [{"op": "create", "root": "", "formats": ["md5"], "flags": n, "extra": []}, {"op": "create", "root": "", "formats": ["md5"], "flags": n, "extra": ["-i", "*.x"]}]}
         yield {"root": "empty child", "tree": {"kid": {}, "f": "x", "all ignored": {"a.tmp": "1"}}, "spell": "abs", "steps": [
